@@ -93,6 +93,7 @@ def run(vc):
 
     run_results(vc)
     run_gen(vc, ("opf", "pf"))
+    run_gen_vm(vc)
 
 
 def run_results(vc, tagprefix=""):
@@ -167,11 +168,45 @@ def run_gen(vc, modes):
         vc.explore(f"_build_pp_gen[{mode}]", h_gen, max_paths=200)
 
 
+def run_gen_vm(vc):
+    """voltage limits of gens (OPF): the bus of an in-service gen gets the intersection of the bus limits and the gen's own limits"""
+    def h(p):
+        cols = {"bus": I, "p_mw": R, "vm_pu": R, "scaling": R, "sn_mva": R, "slack_weight": R, "min_p_mw": R, "max_p_mw": R, "min_q_mvar": R,
+                "max_q_mvar": R, "controllable": B, "min_vm_pu": R, "max_vm_pu": R}
+        net, ppc, gen, bus, tab, is_el, f, t, ig, iu, bl = _setup("gen", "gen", cols, mode="opf")
+        pm.colfun(bus, "all", iu.BUS_TYPE, R)
+        vmax0 = pm.colfun(bus, "all", iu.VMAX, R)
+        vmin0 = pm.colfun(bus, "all", iu.VMIN, R)
+        out = p.call(f"{BG}:_build_pp_gen", net, ppc, f, t)
+        if out.raised:
+            raise EngineError(f"_build_pp_gen raised {out.exc!r}")
+        p.assume(is_el.z)
+        c = tab.cols
+        d = to_z(net.fields.raw("_options").raw("delta"))
+        gb = z3.substitute(to_z(bl.e, I), (bl.space.i, to_z(c["bus"], I)))
+        at = lambda e: z3.substitute(to_z(e, R), (bus.segments["all"].i, gb))
+        nc = z3.Not(to_z(c["controllable"]))
+        hi, lo = to_z(bus.row_of(tab.space, SV(gb), iu.VMAX, p.it), R), to_z(bus.row_of(tab.space, SV(gb), iu.VMIN, p.it), R)
+        gmax, gmin = to_z(c["max_vm_pu"]), to_z(c["min_vm_pu"])
+        want_hi = z3.If(nc, to_z(c["vm_pu"]) + d, z3.If(gmax <= at(vmax0), gmax, at(vmax0)))
+        want_lo = z3.If(nc, to_z(c["vm_pu"]) - d, z3.If(gmin >= at(vmin0), gmin, at(vmin0)))
+        p.prove("gen[opf]:bus-VMAX", hi == want_hi, meta=dict(part="gen-vm"),
+                note="upper voltage limit of the gen's bus: the tighter one of the bus limit and the gen's own max_vm_pu (fixed to vm_pu for "
+                     "non-controllable gens); the gen's own bus, the gen's own value")
+        p.prove("gen[opf]:bus-VMIN", lo == want_lo, meta=dict(part="gen-vm"),
+                note="lower voltage limit of the gen's bus: the tighter one of the bus limit and the gen's own min_vm_pu")
+    vc.explore("_build_pp_gen[opf, voltage limits]", h, max_paths=400)
+
+
 def classify(ob, model):
     return ob.meta.get("part", "setpoints") + ":" + ob.meta.get("element", "")
 
 
 def replay(ob, model, finding=None):
+    if ob.meta.get("part") == "gen-vm" or "voltage limits" in ob.id:
+        return {"script": f"# replay of {ob.id}\nfrom replaylib.opf_feasible import main_gen_vm\nmain_gen_vm()\n",
+                "description": "AC OPF with two gens that declare their own voltage limits (one above its bus maximum, the other below its bus "
+                               "minimum): converged voltages and the limits handed to the solver against the declared ranges"}
     return {"script": f"# replay of {ob.id}\nfrom replaylib.opf_feasible import main\nmain()\n",
             "description": "AC OPF with controllable loads / storages / sgens / gens with asymmetric limits: results inside the declared limits and "
                            "reproduced by a power flow"}
